@@ -132,9 +132,258 @@ Proof.
   rewrite Hc, Hl.
   assert (k = sl data 3 (3 + glen k)) as Hk'.
   { rewrite Hk at 1. rewrite sl_sl by lia. f_equal; lia. }
-  repeat split; try lia.
-  - destruct (nth 0 data 0 =? 0) eqn:E; [apply N.eqb_eq in E; exact E|discriminate].
-  - exact Hk'.
-  - rewrite Hv. f_equal; lia.
-  - f_equal; lia.
+  assert (nth 0 data 0 = 0) as Hb0.
+  { destruct (nth 0 data 0 =? 0) eqn:E; [apply N.eqb_eq in E; exact E|discriminate]. }
+  repeat split; try lia; try exact Hk'.
+  all: try (rewrite Hv; f_equal; f_equal; lia).
+  all: try (f_equal; lia).
 Qed.
+
+(* ---------- Internal node ---------- *)
+Definition ohash (data : bytes) (i : N) : option bytes :=
+  if hash_is_empty (sl data i (i + 32)) then None else Some (sl data i (i + 32)).
+
+Definition hashes_post (data : bytes) (lbl : N) (label : bytes) (lf : option leaf) (pos s : N)
+  (out : res (inode * N) * N) : Prop :=
+  match out with
+  | (Ok (n, c), s') =>
+      s' = s /\ ilbl n = lbl /\ ilabel n = label /\ ileaf n = lf /\
+      ((c = pos /\ glen data < pos + 64 /\ ileft n = None /\ iright n = None) \/
+       (c = pos + 64 /\ c <= glen data /\
+        ileft n = ohash data pos /\ iright n = ohash data (pos + 32)))
+  | _ => False
+  end.
+
+Lemma hashes_spec data lbl label lf pos s :
+  pos <= glen data -> hashes_post data lbl label lf pos s (inode_hashes data lbl label lf pos s).
+Proof.
+  intros Hpos. unfold inode_hashes, hash_unmarshal. consts.
+  destruct (pos + 32 * 2 <=? glen data) eqn:H1.
+  - rewrite slice_ok by lia. rewrite bind_lift_ok.
+    rewrite bind_unfold, wrap_unfold.
+    rewrite glen_sl by lia.
+    replace (pos + 32 - pos =? 32) with true by lia. cbn [negb ret].
+    rewrite slice_ok by lia. rewrite bind_lift_ok.
+    rewrite bind_unfold, wrap_unfold.
+    rewrite glen_sl by lia.
+    replace (pos + 32 + 32 - (pos + 32) =? 32) with true by lia. cbn [negb ret hashes_post].
+    cbn [ilbl ilabel ileaf ileft iright].
+    repeat split. right. unfold ohash. repeat split; try lia.
+  - cbn [ret hashes_post ilbl ilabel ileaf ileft iright]. repeat split. left. repeat split. lia.
+Qed.
+
+Definition leaf_size (l : leaf) : N := glen (lkey l) + glen (lvalue l).
+Definition oleaf_size (l : option leaf) : N :=
+  match l with Some l => leaf_size l | None => 0 end.
+Definition ohash_size (h : option bytes) : N :=
+  match h with Some h => glen h | None => 0 end.
+Definition inode_size (n : inode) : N :=
+  glen (ilabel n) + oleaf_size (ileaf n) + ohash_size (ileft n) + ohash_size (iright n).
+Definition node_size (n : node) : N :=
+  match n with NLeaf l => leaf_size l | NInternal n => inode_size n end.
+
+Definition ileaf_post (data : bytes) (pos s : N) (out : res (option leaf * N) * N) : Prop :=
+  match out with
+  | (Ok (lf, c), s') =>
+      pos < c /\ c <= glen data /\ s' = s + oleaf_size lf /\ oleaf_size lf <= c - pos /\
+      match lf with
+      | None => nth (N.to_nat pos) data 0 = 2 /\ c = pos + 1
+      | Some l => leaf_post (sl data pos (glen data)) s (Ok (l, c - pos), s')
+      end
+  | (Err e, s') => s' <= s + (glen data - pos) /\ (e = 201 \/ e = 202)
+  | (Panic, _) => False
+  end.
+
+Lemma ileaf_spec data pos s :
+  pos < glen data -> ileaf_post data pos s (inode_leaf data pos s).
+Proof.
+  intros Hpos. unfold inode_leaf. consts.
+  rewrite index_ok by lia. rewrite bind_lift_ok.
+  destruct (nth (N.to_nat pos) data 0 =? 2) eqn:H1.
+  - cbn [ret ileaf_post oleaf_size]. apply N.eqb_eq in H1. repeat split; lia.
+  - unfold slice_from. rewrite slice_ok by lia. rewrite bind_lift_ok.
+    rewrite bind_unfold, wrap_unfold.
+    pose proof (leaf_spec (sl data pos (glen data)) s) as HL.
+    assert (glen (sl data pos (glen data)) = glen data - pos) as Hr by (rewrite glen_sl; lia).
+    destruct (leaf_sized_unmarshal (sl data pos (glen data)) s) as [[[l n]|e|] s1];
+      cbn [leaf_post] in HL; [| |contradiction].
+    + cbn [ret ileaf_post oleaf_size]. unfold leaf_size.
+      replace (pos + n - pos) with n by lia.
+      destruct HL as (Hn & Hle & Hs & Hrest).
+      repeat split; try lia; try tauto.
+    + cbn [ileaf_post]. destruct HL as [Hs He]. unfold E_NODE, E_KEY in He. split; [lia|].
+      destruct He as [-> | ->]; [left|right]; reflexivity.
+Qed.
+
+Definition inode_post (data : bytes) (s : N) (out : res (inode * N) * N) : Prop :=
+  match out with
+  | (Ok (n, c), s') =>
+      c <= glen data /\ 4 <= c /\ inode_size n <= c /\ s' <= s + inode_size n /\
+      glen (ilabel n) = depth_to_bytes (ilbl n) /\ nth 0 data 0 = 1
+  | (Err e, s') => s' <= s + glen data /\ e < 500
+  | (Panic, _) => False
+  end.
+
+Lemma ohash_size_ohash data i : i + 32 <= glen data -> ohash_size (ohash data i) <= 32.
+Proof.
+  intros H. unfold ohash. destruct (hash_is_empty _); cbn [ohash_size]; [lia|].
+  rewrite glen_sl; lia.
+Qed.
+
+Lemma inode_spec data s : inode_post data s (inode_sized_unmarshal data s).
+Proof.
+  unfold inode_sized_unmarshal. consts.
+  destruct (glen data <? 1 + 2 + 1) eqn:H1; [cbn; lia|].
+  rewrite index_ok by lia. rewrite bind_lift_ok. change (N.to_nat 0) with 0%nat.
+  destruct (negb (nth 0 data 0 =? 1)) eqn:H2; [cbn; lia|].
+  assert (nth 0 data 0 = 1) as Hb0.
+  { destruct (nth 0 data 0 =? 1) eqn:E; [apply N.eqb_eq in E; exact E|discriminate]. }
+  unfold slice_from. rewrite slice_ok by lia. rewrite bind_lift_ok.
+  rewrite bind_unfold, wrap_unfold.
+  pose proof (depth_spec (sl data (0 + 1) (glen data)) s) as HD.
+  assert (glen (sl data (0 + 1) (glen data)) = glen data - 1) as Hr by (rewrite glen_sl; lia).
+  destruct (depth_unmarshal (sl data (0 + 1) (glen data)) s) as [[[lbl n0]|e|] s1];
+    cbn [depth_post] in HD; [|consts; cbn; lia|contradiction].
+  destruct HD as (_ & _ & -> & _).
+  remember (depth_to_bytes lbl) as labelLen eqn:HLL.
+  destruct (glen data <? 0 + 1 + 2 + labelLen) eqn:H3; [cbn; lia|].
+  rewrite bind_alloc. rewrite slice_ok by lia. rewrite bind_lift_ok.
+  assert (glen (sl data (0 + 1 + 2) (0 + 1 + 2 + labelLen)) = labelLen) as Hl
+    by (rewrite glen_sl; lia).
+  assert (gcopy (zeros labelLen) (sl data (0 + 1 + 2) (0 + 1 + 2 + labelLen))
+          = sl data (0 + 1 + 2) (0 + 1 + 2 + labelLen)) as Hc.
+  { rewrite <- Hl at 1. apply gcopy_zeros. }
+  rewrite Hc.
+  destruct (glen data <=? 0 + 1 + 2 + labelLen) eqn:H4; [cbn; lia|].
+  rewrite bind_unfold.
+  pose proof (ileaf_spec data (0 + 1 + 2 + labelLen) (s + labelLen) ltac:(lia)) as HL.
+  destruct (inode_leaf data (0 + 1 + 2 + labelLen) (s + labelLen)) as [[[lf pos]|e|] s2];
+    cbn [ileaf_post] in HL; [|cbn; lia|contradiction].
+  destruct HL as (Hp1 & Hp2 & Hs2 & Hsz & _).
+  pose proof (hashes_spec data lbl (sl data (0 + 1 + 2) (0 + 1 + 2 + labelLen)) lf pos s2 Hp2) as HH.
+  destruct (inode_hashes data lbl (sl data (0 + 1 + 2) (0 + 1 + 2 + labelLen)) lf pos s2)
+    as [[[n c]|e|] s3]; cbn [hashes_post] in HH; try contradiction.
+  destruct HH as (-> & Hlbl & Hlabel & Hleaf & Hcases).
+  cbn [inode_post]. unfold inode_size. rewrite Hlbl, Hlabel, Hleaf, Hl.
+  destruct Hcases as [(-> & Hshort & -> & ->) | (-> & Hlong & -> & ->)].
+  - cbn [ohash_size]. repeat split; try lia.
+  - pose proof (ohash_size_ohash data pos ltac:(lia)).
+    pose proof (ohash_size_ohash data (pos + 32) ltac:(lia)).
+    repeat split; try lia.
+Qed.
+
+(* ---------- node.UnmarshalBinary ---------- *)
+Definition node_post (data : bytes) (s : N) (out : res node * N) : Prop :=
+  match out with
+  | (Ok n, s') => node_size n <= glen data /\ s' <= s + node_size n
+  | (Err e, s') => s' <= s + glen data /\ e < 500
+  | (Panic, _) => False
+  end.
+
+Lemma node_spec data s : node_post data s (node_unmarshal data s).
+Proof.
+  unfold node_unmarshal. consts.
+  destruct (1 <? glen data) eqn:H1; [|cbn; lia].
+  rewrite index_ok by lia. rewrite bind_lift_ok.
+  destruct (nth (N.to_nat 0) data 0 =? 0).
+  - rewrite bind_unfold. pose proof (leaf_spec data s) as HL.
+    destruct (leaf_sized_unmarshal data s) as [[[l n]|e|] s1]; cbn [leaf_post] in HL;
+      [|consts; cbn; lia|contradiction].
+    cbn [ret node_post node_size]. unfold leaf_size. lia.
+  - destruct (nth (N.to_nat 0) data 0 =? 1); [|cbn; lia].
+    rewrite bind_unfold. pose proof (inode_spec data s) as HI.
+    destruct (inode_sized_unmarshal data s) as [[[n c]|e|] s1]; cbn [inode_post] in HI;
+      [|cbn; lia|contradiction].
+    cbn [ret node_post node_size]. lia.
+Qed.
+
+(* ---------- the statements exported to Props/C16.v ---------- *)
+Lemma decode_depth_total_l : forall b s, fst (depth_unmarshal b s) <> Panic.
+Proof.
+  intros b s. pose proof (depth_spec b s) as H.
+  destruct (depth_unmarshal b s) as [[[v n]|e|] s1]; cbn in *; try discriminate. contradiction.
+Qed.
+
+Lemma decode_key_total_l : forall b s, fst (key_sized_unmarshal b s) <> Panic.
+Proof.
+  intros b s. pose proof (key_spec b s) as H.
+  destruct (key_sized_unmarshal b s) as [[[v n]|e|] s1]; cbn in *; try discriminate. contradiction.
+Qed.
+
+Lemma decode_leaf_total_l : forall b s, fst (leaf_sized_unmarshal b s) <> Panic.
+Proof.
+  intros b s. pose proof (leaf_spec b s) as H.
+  destruct (leaf_sized_unmarshal b s) as [[[v n]|e|] s1]; cbn in *; try discriminate. contradiction.
+Qed.
+
+Lemma decode_internal_total_l : forall b s, fst (inode_sized_unmarshal b s) <> Panic.
+Proof.
+  intros b s. pose proof (inode_spec b s) as H.
+  destruct (inode_sized_unmarshal b s) as [[[v n]|e|] s1]; cbn in *; try discriminate. contradiction.
+Qed.
+
+Lemma decode_node_total_l : forall b s, fst (node_unmarshal b s) <> Panic.
+Proof.
+  intros b s. pose proof (node_spec b s) as H.
+  destruct (node_unmarshal b s) as [[v|e|] s1]; cbn in *; try discriminate. contradiction.
+Qed.
+
+(* consumed length and size of the decoded value are bounded by the input *)
+Lemma decode_key_bounded_l : forall b s k n s',
+  key_sized_unmarshal b s = (Ok (k, n), s') ->
+  n <= glen b /\ glen k <= n /\ s' = s + glen k.
+Proof.
+  intros b s k n s' H. pose proof (key_spec b s) as HK. rewrite H in HK. cbn in HK. lia.
+Qed.
+
+Lemma decode_leaf_bounded_l : forall b s l n s',
+  leaf_sized_unmarshal b s = (Ok (l, n), s') ->
+  n <= glen b /\ leaf_size l <= n /\ s' = s + leaf_size l.
+Proof.
+  intros b s l n s' H. pose proof (leaf_spec b s) as HK. rewrite H in HK. cbn in HK.
+  unfold leaf_size. lia.
+Qed.
+
+Lemma decode_internal_bounded_l : forall b s nd n s',
+  inode_sized_unmarshal b s = (Ok (nd, n), s') ->
+  n <= glen b /\ inode_size nd <= n /\ s' <= s + inode_size nd /\
+  glen (ilabel nd) = depth_to_bytes (ilbl nd).
+Proof.
+  intros b s nd n s' H. pose proof (inode_spec b s) as HK. rewrite H in HK. cbn in HK. lia.
+Qed.
+
+Lemma decode_node_bounded_l : forall b s nd s',
+  node_unmarshal b s = (Ok nd, s') -> node_size nd <= glen b /\ s' <= s + node_size nd.
+Proof.
+  intros b s nd s' H. pose proof (node_spec b s) as HK. rewrite H in HK. cbn in HK. lia.
+Qed.
+
+(* bytes requested through make() never exceed the input length, on every
+   path, including the error paths (declared lengths are checked first) *)
+Lemma decode_alloc_bounded_l : forall b s,
+  snd (key_sized_unmarshal b s) <= s + glen b /\
+  snd (leaf_sized_unmarshal b s) <= s + glen b /\
+  snd (inode_sized_unmarshal b s) <= s + glen b /\
+  snd (node_unmarshal b s) <= s + glen b.
+Proof.
+  intros b s.
+  pose proof (key_spec b s) as H1. pose proof (leaf_spec b s) as H2.
+  pose proof (inode_spec b s) as H3. pose proof (node_spec b s) as H4.
+  destruct (key_sized_unmarshal b s) as [[[? ?]|?|] ?];
+  destruct (leaf_sized_unmarshal b s) as [[[? ?]|?|] ?];
+  destruct (inode_sized_unmarshal b s) as [[[? ?]|?|] ?];
+  destruct (node_unmarshal b s) as [[?|?|] ?];
+  cbn [key_post leaf_post inode_post node_post fst snd] in *; try contradiction; lia.
+Qed.
+
+(* the example of the design: a truncated internal node whose declared label
+   length (0x0040 bits = 8 bytes) exceeds the input is an error, not a panic *)
+Example truncated_internal_is_err :
+  run (inode_sized_unmarshal [1; 64; 0; 170; 187]) = (Err E_NODE, 0) /\
+  run (node_unmarshal [1; 64; 0; 170; 187]) = (Err E_NODE, 0).
+Proof. split; vm_compute; reflexivity. Qed.
+
+(* and a leaf whose declared value size is 2^32-1 allocates nothing *)
+Example huge_value_is_err :
+  run (leaf_sized_unmarshal [0; 1; 0; 7; 255; 255; 255; 255; 1; 2]) = (Err E_NODE, 1).
+Proof. vm_compute. reflexivity. Qed.
